@@ -1,4 +1,4 @@
-from . import check_combo, check_establish, check_framing, check_pool, check_upgrade
+from . import check_combo, check_establish, check_framing, check_pool, check_upgrade, check_url
 
 REGISTRY = {
     "C02": check_framing,
@@ -11,5 +11,6 @@ REGISTRY = {
     "C11": check_establish,
     "C16": check_combo,
     "C17": check_upgrade,
+    "C19": check_url,
     "C20": check_establish,
 }
